@@ -171,6 +171,7 @@ func startJob(mode string, j *job) (*jobState, error) {
 	js := &jobState{mode: mode, j: j, e: e, clients: map[string]*cqlclient.Client{}, byTok: map[string][]*fakecql.Attempt{},
 		prepID: map[string][]byte{}, thor: hutil.Thorough()}
 	e.C.KeepLog = true
+	e.C.WidePrepared = true
 	e.C.Script = js.script
 	return js, nil
 }
@@ -341,6 +342,37 @@ func (js *jobState) ensurePrepared(c *cqlclient.Client) error {
 // ensureLate sets up a statement of class prep_late_* for one client connection: a statement the proxy has never seen
 // is prepared on the nodes directly, EXECUTEd once through the proxy on that connection (the proxy cannot know what it
 // is), and only then PREPAREd through the proxy on the same connection.
+// executeRightAfterPrepare: a driver prepares a SELECT and executes it at once, at a consistency of the list - n times,
+// each time a statement the proxy has not seen.  The backend must see the client's consistency every time (what the proxy
+// learns from a PREPARED result it must know before it passes the result on).
+func (js *jobState) executeRightAfterPrepare(c *cqlclient.Client, n int, cons primitive.ConsistencyLevel) (sent, altered int, err error) {
+	for i := 0; i < n; i++ {
+		js.nlate++
+		text := fmt.Sprintf("SELECT v FROM ks.wide%d_%d WHERE k = ?", js.j.Env.ID, js.nlate)
+		id, err := js.prepareVia(c, text)
+		if err != nil {
+			return sent, altered, err
+		}
+		js.nstream++
+		tok := fmt.Sprintf("tokrap%dx%d;", js.j.Env.ID, js.nlate)
+		ex := &message.Execute{QueryId: id, Options: &message.QueryOptions{Consistency: cons, PositionalValues: []*primitive.Value{primitive.NewValue([]byte(tok))}}}
+		if c.Version.SupportsResultMetadataId() {
+			ex.ResultMetadataId = id
+		}
+		if _, err := c.Roundtrip(frame.NewFrame(c.Version, int16(23000+js.nstream%1000), ex), tok, "wire", 5*time.Second); err != nil {
+			return sent, altered, err
+		}
+		sent++
+		for _, a := range js.attempts(tok) {
+			if m, ok := a.Frame.Body.Message.(*message.Execute); ok && m.Options != nil && m.Options.Consistency != cons {
+				altered++
+				break
+			}
+		}
+	}
+	return sent, altered, nil
+}
+
 func (js *jobState) ensureLate(c *cqlclient.Client, conn, sel string) ([]byte, error) {
 	key := conn + "|" + sel + "|" + fmt.Sprint(c.ID)
 	if id := js.late[key]; id != nil {
